@@ -281,6 +281,23 @@ def sweep(ctx):
                 sig = f'C01|{r["sig"][0]}|{r["sig"][1]}|{r["sig"][2]}|{r["cls"]}'
                 ctx.fail(sig, f'{r["op"]} at {r["sig"][1]} ({r["sig"][2]}): {r["fail"][:300]}', r['witness'])
     ctx.notes['successful_edits'] = n
+    # witnesses of REPAIRED findings are regression inputs: a 'fixed' entry suppresses nothing, so a witness that fails again
+    # (repair reverted or not yet applied) is reported under its own signature
+    import framework
+    nfixed = 0
+    for e in framework.load_known(ID):
+        w = e.get('witness')
+        if e.get('kind') != 'fixed' or not isinstance(w, dict) or 'history' not in w:
+            continue
+        nfixed += 1
+        tmp = framework.Ctx(ID, ctx.tier, ctx.seed)
+        try:
+            check_known(tmp, e)
+        except Exception:
+            continue
+        if tmp.failures:
+            ctx.fail(e.get('signature_of_witness') or f'{e["id"]}|regressed', 'REGRESSION of repaired finding ' + e['id'] + ': ' + e['what'], w)
+    ctx.notes['fixed_witnesses_replayed'] = nfixed
     # correspondence: Lean replacement model vs pfst positions, and the proved checker wfT on pfst post-states
     cases, exps, metas = [], [], []
     for lst in res:
